@@ -7,7 +7,7 @@
   element-type behaviour `c : Cfg` (what moved-from elements hold, which `call_reconstruct`
   overload applies), over every operation sequence and over every value.
 -/
-import Babylon.RVec.Lemmas6
+import Babylon.RVec.Lemmas7
 import Babylon.RVec.StrLemmas
 
 namespace Babylon.Properties.C12
@@ -135,7 +135,13 @@ theorem rvec_inv_step (c : Cfg) (s : RVec) (o : Op) (h : Inv s) : Inv (s.step c 
 /-- `rvec_refines_list`: the observable contents (`abs`: the first `size` cells read as
 elements) follow the `std::vector` semantics `listStep` for every operation, hence for every
 operation sequence, from every well-formed state — in particular no stale element kept in
-`[size, constructed)` ever resurfaces, whatever moved-from elements hold. -/
+`[size, constructed)` ever resurfaces, whatever moved-from elements hold.
+
+Hypothesis made explicit by the operation alphabet: an `Op` carries its arguments as *values*,
+i.e. the caller's argument does not alias an element of the vector being modified.  For
+aliasing arguments (`AOp`) the statement is false for the code as it is — see
+`rvec_alias_counterexample` (known finding `oracle:contents:self-aliasing-argument`) and
+`rvec_alias_safe_cases` for what does hold. -/
 theorem rvec_refines_list (c : Cfg) (s : RVec) (xs : List Val) (ops : List Op)
     (h : Inv s) (hx : s.abs = xs.map some) :
     (runOps (RVec.step c) s ops).abs = (runOps listStep xs ops).map some := by
@@ -341,6 +347,61 @@ theorem rstr_meta_roundtrip (m : RStr.Meta) :
   refine ⟨(RStr.ofMeta_cap_ge m).1, by simp [RStr.ofMeta, RStr.stableReserve, RStr.grow_chars, RStr.fresh], ?_⟩
   have : (RStr.ofMeta m).updateMeta 0 = (RStr.ofMeta m).cap := by simp [RStr.updateMeta]
   rw [this, RStr.ofMeta_stable]
+
+
+/-! ### arguments aliasing an element of the vector (known finding) -/
+
+/-- a string-like element type: move construction steals (source left empty), move assignment swaps -/
+def strCfg : Cfg :=
+  { mvC := fun _ => 0, mvA := fun _ old => old, mvSelf := id, mvX := id, rebuild := false, rebuildMove := false }
+
+/-- `rvec_alias_counterexample`: with an argument that refers to an element of the same vector
+the code does **not** behave like `std::vector` (which must cope with it): from the well-formed
+state holding `[121, 122, 123, 124]` with `size = capacity = 4`,
+* `push_back(v[0])` appends the moved-from residue `0` of the old element (read after `reserve`
+  has moved it away and destroyed it, one lifetime violation) instead of `121`;
+* after `reserve(16)`, `emplace(begin(), v[2])` inserts `122` (cell 2 is read after the
+  shifting loops have put `v[1]` there) instead of `123`.
+Replayed on the real classes by corpus/C12/self_aliasing_argument.txt. -/
+theorem rvec_alias_counterexample :
+    let s := runOps (RVec.step strCfg) RVec.fresh [.assignRange [121, 122, 123, 124]]
+    let t := s.reserve strCfg 16
+    Inv s ∧ s.abs = [121, 122, 123, 124].map some ∧
+      (s.applyAlias strCfg (.pushBackSelf 0)).abs = [121, 122, 123, 124, 0].map some ∧
+      listApplyAlias [121, 122, 123, 124] (.pushBackSelf 0) = [121, 122, 123, 124, 121] ∧
+      (s.applyAlias strCfg (.pushBackSelf 0)).g.bad = 1 ∧
+      (t.applyAlias strCfg (.emplaceSelf 0 2)).abs = [122, 121, 122, 123, 124].map some ∧
+      listApplyAlias [121, 122, 123, 124] (.emplaceSelf 0 2) = [123, 121, 122, 123, 124] := by
+  refine ⟨(run_spec strCfg _ inv_fresh rep_fresh).inv, ?_, ?_, ?_, ?_, ?_, ?_⟩ <;> decide
+
+/-- `rvec_alias_safe_cases`: what does hold with aliasing arguments — when the call does not
+reallocate, `push_back(v[j])` is exactly `push_back` of a copy of `v[j]`, and so is
+`insert(pos, n, v[j])` / `emplace(pos, v[j])` when the aliased element lies in front of `pos`
+(the shifting loops do not touch it); these calls therefore refine `std::vector` as well. -/
+theorem rvec_alias_safe_cases (c : Cfg) (s : RVec) (xs : List Val) (h : Inv s) (hx : s.abs = xs.map some)
+    (i n j : Nat) (hj : j < xs.length) :
+    (s.size < s.cap →
+      (s.applyAlias c (.pushBackSelf j)).abs = (listApplyAlias xs (.pushBackSelf j)).map some) ∧
+    (i ≤ s.size → j < i → s.size + n ≤ s.cap →
+      (s.applyAlias c (.insertNSelf i n j)).abs = (listApplyAlias xs (.insertNSelf i n j)).map some) ∧
+    (i ≤ s.size → j < i → s.size + 1 ≤ s.cap →
+      (s.applyAlias c (.emplaceSelf i j)).abs = (listApplyAlias xs (.emplaceSelf i j)).map some) := by
+  have x := (rep_iff_abs h xs).mpr hx
+  have hjs : j < s.size := by rw [← x.len]; exact hj
+  refine ⟨?_, ?_, ?_⟩
+  · intro hroom
+    simp only [RVec.applyAlias, listApplyAlias, List.getElem?_eq_getElem hj, emplaceBackSelf_safe c x hjs hroom]
+    have a := emplaceBackWith_spec c c.rebuild h x xs[j]
+    exact (rep_iff_abs a.inv _).mp a.rep
+  · intro hi hji hroom
+    simp only [RVec.applyAlias, listApplyAlias, List.getElem?_eq_getElem hj, insertNSelf_safe c h x hi hji hroom]
+    have a := insertN_spec c h x hi n xs[j]
+    exact (rep_iff_abs a.inv _).mp a.rep
+  · intro hi hji hroom
+    simp only [RVec.applyAlias, listApplyAlias, List.getElem?_eq_getElem hj, emplaceSelf,
+      insertNSelf_safe c h x hi hji hroom]
+    have a := insertN_spec c h x hi 1 xs[j]
+    simpa using (rep_iff_abs a.inv _).mp a.rep
 
 /-! ### non-vacuity -/
 
